@@ -163,7 +163,8 @@ def rebuild(desc):
             secs.append(Pipe(f'pipe {i}', s[1], s[2], s[3], s[4]))
         else:
             _, name, limited, avail, gear, speed, imp = s[:7]
-            base = example_pumps()[name]
+            ex = example_pumps()
+            base = ex[name] if name in ex else next(b for b in ex.values() if b.name == name)
             over = {'limited': limited, 'avail_power': avail, 'gear_ratio': gear}
             if limited == 'curve':
                 curve = s[7] if len(s) > 7 and s[7] else None
